@@ -5,7 +5,7 @@ import math
 import numpy as np
 from hypothesis import strategies as st
 
-from vlib.core import HypClause
+from vlib.core import HypClause, MachineClause
 from vlib import util as U
 
 RULE = ("Hypothesis-drawn real height maps (white noise, smooth band-limited noise, sinusoid + noise, circular aperture "
@@ -25,11 +25,31 @@ RULE = ("Hypothesis-drawn real height maps (white noise, smooth band-limited noi
         "Synthesis: render_synthetic_surface / Interferogram.render_from_psd with abc / ab models, masks (None, bool, int "
         "arrays), requested RMS, numpy.random.seed(k) with drawn k: RMS over the finite samples == requested, NaN exactly "
         "where mask == 0.  Non-trivial = non-square or an odd axis or a non-trivial window / band given as periods / "
-        "emulated API generation / masked synthesis.  Distinct = distinct canonical JSON of the case.")
+        "emulated API generation / masked synthesis.  Distinct = distinct canonical JSON of the case.  Hardening pass: the height "
+        "map is handed over in a drawn memory layout (C, Fortran, transposed view, strided view) and dtype (float64, float32, "
+        "int16 / int64 / uint8 / uint16 quantised maps; the oracle works on the float64 image of exactly those values; the "
+        "comparison tolerance is 1e-10 unless the map or the window is a float32 array, then 5e-4), user windows come in "
+        "float64 / float32 / bool / uint8 / int8 / uint16 / int64 and every layout; maps with a size-1 or size-3 axis (1xN, Nx1, "
+        "1x1, 3xN; the radial Welch window is not asked for on a single row, where its normalising radius is 0); every array "
+        "argument (map, window, r and psd of bandlimited_rms, synthesis mask) must come back unchanged; psd() called again after "
+        "the first result was overwritten in place must give the right answer again, and a second synthesis must not change "
+        "the arrays returned by the first; clause psd_large: maps with more than 2**16 samples and axis lengths with large prime "
+        "factors (257x300, 301x263, 289x299, 1x65537, ...); clause grid_history: a state machine that performs *different* "
+        "operations one after the other on one sampling grid (n, size) with dx == size/(n-1) bit for bit - synthesis (function "
+        "and render_from_psd, followed by psd() of the rendered object), psd (function / method, n x n, n x m, m x n), "
+        "band-limited RMS, TIS, and calls under config.precision = 32 - each checked by the same oracle as in the single-call "
+        "clauses; non-trivial there = a PSD-side operation after a synthesis or a precision-32 call on the same grid.  Scalar "
+        "parameters (dx, band edges, wavelength) are handed over as Python float / int, numpy scalar or 0-d array (0-d arrays must "
+        "come back unchanged), the incident angle of total_integrated_scatter also as a vector of angles (each entry checked "
+        "against the formula), psd() is called positionally, by keyword and with the window omitted.")
 ASSUMPTIONS = ["numpy.fft.fft2 / fftfreq / fftshift are correct", "make_window() returns the window psd() documents for a window name / None "
                "(the oracle needs the window itself to form the window-weighted mean square)",
                "a real NumPy 1.x runtime is not installed: only the trapz/trapezoid API difference is emulated through prysm.mathops' shim",
-               "height maps are finite (a NaN sample makes every FFT output NaN by arithmetic)"]
+               "height maps are finite (a NaN sample makes every FFT output NaN by arithmetic)",
+               "dx > 0 (psd() divides by dx; 'no lateral calibration' has no spatial frequency)",
+               "axis length 2 is used with user windows only through the 4..N range, never as a degenerate class: numpy.hanning(2) is "
+               "identically zero, so the named / automatic window has no power there",
+               "float16 windows are not generated (sum(w^2) in half precision is not a meaningful normalisation)"]
 
 NMAX = {'quick': 40, 'thorough': 64}
 DXS = [1.0, 0.5, 0.1, 2.0, 0.0125, 7.5, 0.3]
@@ -93,7 +113,51 @@ def make_map(kind, seed, shape, amp=1.0):
     return np.ascontiguousarray(z * amp, dtype=np.float64)
 
 
-WINDOWS = ['auto', 'welch', 'hann', 'hanning', 'Welch', 'user:ones', 'user:const', 'user:random', 'user:hann', 'user:bool', 'user:uint8']
+WINDOWS = ['auto', 'welch', 'hann', 'hanning', 'Welch', 'user:ones', 'user:const', 'user:random', 'user:hann', 'user:bool', 'user:uint8',
+           'user:f32', 'user:int8', 'user:uint16', 'user:int64']
+HDTYPES = ['f8', 'f8', 'f8', 'f4', 'f4', 'i2', 'i8', 'u1', 'u2']
+_NP = {'f8': np.float64, 'f4': np.float32, 'i2': np.int16, 'i4': np.int32, 'i8': np.int64, 'u1': np.uint8, 'u2': np.uint16}
+
+
+def cast_map(h, dtype):
+    """the height map in another dtype: float32 (rounded), signed integers (quantised to +-1000 levels, 0 stays 0) or unsigned
+    integers (quantised to 0..255 / 0..60000).  The oracle always works on the float64 image of the values actually handed over."""
+    if dtype == 'f8':
+        return h
+    if dtype == 'f4':
+        return h.astype(np.float32)
+    if dtype in ('u1', 'u2'):
+        lo = float(h.min())
+        span = float(h.max() - lo) or 1.0
+        return np.round((h - lo) / span * (255 if dtype == 'u1' else 60000)).astype(_NP[dtype])
+    return np.round(h / (float(np.abs(h).max()) or 1.0) * 1000).astype(_NP[dtype])
+
+
+SCALARS = ['float', 'float', 'np64', '0d', 'int']
+
+
+def scalar_form(v, form):
+    """a scalar parameter as the caller may hold it: Python float, numpy float64 scalar, 0-d array, Python int (integral values only)"""
+    if v is None:
+        return None
+    if form == 'np64':
+        return np.float64(v)
+    if form == '0d':
+        return np.array(float(v))
+    if form == 'int' and float(v) == int(v):
+        return int(v)
+    return v
+
+
+def scalar_unchanged(ctx, fn, name, arg, want):
+    if isinstance(arg, np.ndarray) and not (arg.shape == np.shape(want) and np.array_equal(arg, want)):
+        ctx.fail('%s:argument-modified' % fn, 'argument %s of %s was changed by the call: %r, was %r' % (name, fn, arg, want))
+
+
+def rtol_of(hdtype, wdtype):
+    """psd() forms map*window and sum(window^2) in the precision numpy gives those expressions: single precision (relative 6e-8 per
+    operation) as soon as the map or the window is a float32 array - then 5e-4, otherwise 1e-10"""
+    return 5e-4 if any(np.dtype(d) in (np.dtype(np.float32), np.dtype(np.float16)) for d in (hdtype, wdtype)) else 1e-10
 
 
 def window_arg(win, seed, shape):
@@ -111,11 +175,13 @@ def window_arg(win, seed, shape):
         return U.rng_of(seed, 4).uniform(0.2, 1.0, shape)
     if k == 'hann':
         return np.outer(np.hanning(shape[0]), np.hanning(shape[1]))
-    if k in ('bool', 'uint8'):
+    if k == 'f32':
+        return U.rng_of(seed, 4).uniform(0.2, 1.0, shape).astype(np.float32)
+    if k in ('bool', 'uint8', 'int8', 'uint16', 'int64'):
         # a 0/1 aperture mask used as the window (what prysm.geometry.circle returns is a bool array)
         m = U.rng_of(seed, 4).uniform(0, 1, shape) > 0.3
         m.flat[0] = True
-        return m if k == 'bool' else m.astype(np.uint8)
+        return m if k == 'bool' else m.astype({'uint8': np.uint8, 'int8': np.int8, 'uint16': np.uint16, 'int64': np.int64}[k])
     raise ValueError(win)
 
 
@@ -124,7 +190,7 @@ def window_array(ctx, win, warg, h, dx):
     public make_window() returns (checked to be a finite real array of the map's shape with positive power)."""
     from prysm.interferogram import make_window
     if isinstance(warg, np.ndarray):
-        return warg.astype(np.float64) if warg.dtype.kind in 'bui' else warg     # the oracle works in float64
+        return warg.astype(np.float64)     # the oracle works in float64
     w = np.asarray(ctx.call(make_window, h, dx, warg))
     U.check_shape(w, h.shape, 'make_window:' + win, 'window')
     ctx.require(bool(np.all(np.isfinite(w))) and float((w * w).sum()) > 0, 'make_window:' + win, 'window not finite / zero power for shape %s' % (h.shape,))
@@ -142,6 +208,13 @@ def ref_psd(h, w, dx):
     """|FFT(h w)|^2 dx^2 / sum(w^2), zero frequency at index n//2 on both axes."""
     hw = h * w
     return np.fft.fftshift(np.abs(np.fft.fft2(hw)) ** 2) * (dx * dx) / float((w * w).sum())
+
+
+def args_unchanged(ctx, fn, **pairs):
+    """every array argument must come back exactly as it was handed over: pairs name -> (array handed over, copy taken before)"""
+    for name, (arr, keep) in pairs.items():
+        if isinstance(arr, np.ndarray) and not (arr.shape == keep.shape and arr.dtype == keep.dtype and np.array_equal(arr, keep, equal_nan=arr.dtype.kind == 'f')):
+            ctx.fail('%s:argument-modified' % fn, 'argument %s of %s (shape %s, dtype %s) was changed by the call' % (name, fn, keep.shape, keep.dtype))
 
 
 def shape_strategy(tier, lo=4):
@@ -176,11 +249,60 @@ def shape_labels(ctx, shape):
 
 
 # ---- clause 1: normalisation, whole array, axes ----------------------------------------------------
+THIN = [None] * 8 + ['1xN', 'Nx1', '3xN', 'Nx3', '1x1']
+
+
+def thin_shape(shape, thin):
+    """degenerate but valid shapes: a single row / column / sample, three rows / columns"""
+    ny, nx = shape
+    return {None: (ny, nx), '1xN': (1, nx), 'Nx1': (ny, 1), '3xN': (3, nx), 'Nx3': (ny, 3), '1x1': (1, 1)}[thin]
+
+
+def psd_fields(tier):
+    """everything of a psd case except the sampling grid (shape, dx)"""
+    return {'seed': U.seeds, 'map': st.sampled_from(MAPS),
+            'amp': st.sampled_from([1.0, 1.0, 1e-3, 250.0]), 'window': st.sampled_from(WINDOWS),
+            'route': st.sampled_from(['function', 'function', 'method']),
+            'hdtype': st.sampled_from(HDTYPES), 'hlayout': U.layouts, 'wlayout': U.layouts,
+            'again': st.sampled_from([False, False, True]), 'dxform': st.sampled_from(SCALARS),
+            'call': st.sampled_from(['positional', 'positional', 'keyword', 'window-omitted'])}
+
+
 def strat_psd(tier):
-    return st.fixed_dictionaries({
-        'shape': shape_strategy(tier), 'dx': dx_strategy, 'seed': U.seeds, 'map': st.sampled_from(MAPS),
-        'amp': st.sampled_from([1.0, 1.0, 1e-3, 250.0]), 'window': st.sampled_from(WINDOWS),
-        'route': st.sampled_from(['function', 'function', 'method']), 'big': st.sampled_from([False, False, True])})
+    return st.fixed_dictionaries(dict(psd_fields(tier), shape=shape_strategy(tier), dx=dx_strategy,
+                                      big=st.sampled_from([False, False, True]), thin=st.sampled_from(THIN)))
+
+
+LARGE = {'quick': [[257, 300], [301, 263], [263, 257], [289, 299], [1, 65537], [65539, 1], [1023, 67]],
+         'thorough': [[257, 300], [301, 263], [263, 257], [289, 299], [1, 65537], [65539, 1], [1023, 67], [521, 509], [1021, 67], [127, 523],
+                      [1031, 65], [347, 211], [256, 257], [514, 131]]}
+
+
+def strat_psd_large(tier):
+    """more than 2**16 samples and at least one axis length with a large prime factor (where an FFT library switches algorithm and a
+    'fast length' differs from the length)"""
+    return st.fixed_dictionaries(dict(psd_fields(tier), shape=st.sampled_from(LARGE[tier]), dx=dx_strategy, big=st.just(False), thin=st.just(None)))
+
+
+def verify_psd(ctx, shape, dx, hq, w, ux, uy, P, rt, what, tag=''):
+    """axes == fftshift(fftfreq) per axis, array == |FFT(hw)|^2 dx^2/sum(w^2) on those axes, integral == window-weighted mean square.
+    hq, w: float64 images of the map and the window that were handed to prysm."""
+    ny, nx = shape
+    ux, uy, P = np.asarray(ux), np.asarray(uy), np.asarray(P)
+    U.check_shape(P, shape, 'psd' + tag, 'psd array of a %s map' % (shape,))
+    fx, fy = ref_axes(shape, dx)
+    U.check_close(ux, fx, 1e-12, 'psd:axes' + tag, 'x frequency axis of a %s map, dx=%r' % (shape, dx))
+    U.check_close(uy, fy, 1e-12, 'psd:axes' + tag, 'y frequency axis of a %s map, dx=%r' % (shape, dx))
+    ctx.require(bool(np.all(np.isfinite(P))) and bool(np.all(P >= 0)), 'psd:nonfinite' + tag, 'psd has negative / non-finite entries')
+    wms = float(((hq * w) ** 2).sum() / (w * w).sum())
+    dfx, dfy = 1.0 / (nx * dx), 1.0 / (ny * dx)
+    integral = float(P.astype(np.float64).sum()) * dfx * dfy
+    ctx.require(abs(integral - wms) <= rt * wms, 'psd:parseval' + tag,
+                'sum(PSD) df_x df_y = %.15g, window-weighted mean square = %.15g (shape %s dx %g; %s)' % (integral, wms, shape, dx, what))
+    odd = ('odd' if (ny % 2 or nx % 2) else 'even')
+    U.check_close(P, ref_psd(hq, w, dx), rt, 'psd:array:%s-axis' % odd + tag,
+                  'PSD vs fftshift(|fft2(h w)|^2) dx^2/sum(w^2) on a %s map (%s)' % (shape, what))
+    return fx, fy, dfx
 
 
 def check_psd(case, ctx):
@@ -192,42 +314,80 @@ def check_psd(case, ctx):
         win = 'auto'          # Interferogram.psd() takes no window
     if case['big']:
         shape = big_shape(shape)
+    thin = case.get('thin')
+    shape = thin_shape(shape, thin)
     ny, nx = shape
-    h = make_map(case['map'], case['seed'], shape, case['amp'])
+    hdtype, hlayout, wlayout = case.get('hdtype', 'f8'), case.get('hlayout', 'C'), case.get('wlayout', 'C')
+    kind = case['map']
+    if ny == 1:
+        # the radial Welch window normalises by the radius of the last row's centre, which is 0 on a single row: it is not asked for
+        # by name, and the automatic choice (Welch when the corner samples are exactly 0) is kept on its Hann branch by maps whose
+        # samples are never exactly 0 (no zero-filled aperture, no quantised map)
+        if win.lower() == 'welch':
+            win = 'hann'
+        if kind == 'aperture0':
+            kind = 'offset+noise'
+        if hdtype not in ('f8', 'f4'):
+            hdtype = 'f8'
+    h = U.relayout(cast_map(make_map(kind, case['seed'], shape, case['amp']), hdtype), hlayout)
+    hq = h.astype(np.float64)
     warg = window_arg(win, case['seed'], shape)
+    if isinstance(warg, np.ndarray):
+        warg = U.relayout(warg, wlayout)
     shape_labels(ctx, shape)
-    ctx.label('window:' + win, 'map:' + case['map'], 'route:' + route)
+    ctx.label('window:' + win, 'map:' + kind, 'route:' + route, 'hdtype:' + hdtype, 'hlayout:' + hlayout, 'thin:%s' % thin,
+              'samples>2^16' if ny * nx > 65536 else 'samples<=2^16')
+    if isinstance(warg, np.ndarray):
+        ctx.label('wlayout:' + wlayout)
     ctx.nt(ny != nx or ny % 2 == 1 or nx % 2 == 1 or win != 'user:ones')
     w = window_array(ctx, win, warg, h, dx)
+    rt = rtol_of(h.dtype, warg.dtype if isinstance(warg, np.ndarray) else w.dtype)
+    ctx.label('tolerance:%g' % rt)
     if win == 'auto':
-        which = 'welch' if np.array_equal(w, window_array(ctx, 'welch', 'welch', h, dx)) else 'other'
+        which = 'welch' if (ny > 1 and np.array_equal(w, window_array(ctx, 'welch', 'welch', h, dx))) else 'other'
         ctx.label('auto->' + which)
-    if route == 'method':
-        p = ctx.call(Interferogram(h.copy(), dx).psd)
-        ux, uy, P = ctx.call(getattr, p, 'x'), ctx.call(getattr, p, 'y'), p.data
-    else:
-        ux, uy, P = ctx.call(psd, h.copy(), dx, warg)
-    ux, uy, P = np.asarray(ux), np.asarray(uy), np.asarray(P)
-    U.check_shape(P, shape, 'psd', 'psd array')
-    fx, fy = ref_axes(shape, dx)
-    U.check_close(ux, fx, 1e-12, 'psd:axes', 'x frequency axis of a %s map, dx=%g' % (shape, dx))
-    U.check_close(uy, fy, 1e-12, 'psd:axes', 'y frequency axis of a %s map, dx=%g' % (shape, dx))
-    ctx.require(bool(np.all(np.isfinite(P))) and bool(np.all(P >= 0)), 'psd:nonfinite', 'psd has negative / non-finite entries')
-    wms = float(((h * w) ** 2).sum() / (w * w).sum())
-    dfx, dfy = 1.0 / (nx * dx), 1.0 / (ny * dx)
-    integral = float(P.sum()) * dfx * dfy
-    ctx.require(abs(integral - wms) <= 1e-10 * wms, 'psd:parseval',
-                'sum(PSD) df_x df_y = %.15g, window-weighted mean square = %.15g (shape %s dx %g window %s)' % (integral, wms, shape, dx, win))
-    odd = ('odd' if (ny % 2 or nx % 2) else 'even')
-    U.check_close(P, ref_psd(h, w, dx), 1e-10, 'psd:array:%s-axis' % odd,
-                  'PSD vs fftshift(|fft2(h w)|^2) dx^2/sum(w^2) on a %s map (window %s)' % (shape, win))
-    if route == 'method':
-        r = np.asarray(ctx.call(getattr, p, 'r'))
-        U.check_close(r, np.hypot(fx, fy), 1e-12, 'Interferogram.psd:r', 'radial frequency of the PSD object')
-        # the spacing the PSD object reports is the spacing of its own x frequency axis
-        pdx = p.dx
-        ctx.require(np.ndim(pdx) == 0 and nx > 1 and abs(float(pdx) - dfx) <= 1e-12 * dfx or nx == 1, 'Interferogram.psd:dx',
-                    'PSD object reports dx=%r, its x frequency axis is spaced by %r (shape %s)' % (pdx, dfx, shape))
+    w = w.astype(np.float64)
+    keep_h, keep_w = h.copy(), (warg.copy() if isinstance(warg, np.ndarray) else None)
+    dxarg = scalar_form(dx, case.get('dxform', 'float'))
+    ctx.label('dx:' + type(dxarg).__name__, 'call:' + (case.get('call', 'positional') if route == 'function' else 'method'))
+    what = 'window %s, map dtype %s layout %s' % (win, h.dtype, hlayout)
+
+    def once(tag):
+        if route == 'method':
+            p = ctx.call(ctx.call(Interferogram, h, dxarg).psd)
+            ux, uy, P = ctx.call(getattr, p, 'x'), ctx.call(getattr, p, 'y'), p.data
+        else:
+            p = None
+            form = case.get('call', 'positional')
+            if form == 'keyword':
+                ux, uy, P = ctx.call(psd, height=h, dx=dxarg, window=warg)
+            elif form == 'window-omitted' and warg is None:
+                ux, uy, P = ctx.call(psd, h, dxarg)
+            else:
+                ux, uy, P = ctx.call(psd, h, dxarg, warg)
+        args_unchanged(ctx, 'psd', height=(h, keep_h), window=(warg, keep_w))
+        scalar_unchanged(ctx, 'psd', 'dx', dxarg, dx)
+        fx, fy, dfx = verify_psd(ctx, shape, dx, hq, w, ux, uy, P, rt, what, tag)
+        if route == 'method':
+            r = np.asarray(ctx.call(getattr, p, 'r'))
+            U.check_close(r, np.hypot(fx, fy), 1e-12, 'Interferogram.psd:r' + tag, 'radial frequency of the PSD object')
+            # the spacing the PSD object reports is the spacing of its own x frequency axis
+            pdx = p.dx
+            # (a difference of two axis samples: absolute rounding eps*f_max = eps*nx/2 spacings)
+            ctx.require(np.ndim(pdx) == 0 and nx > 1 and abs(float(pdx) - dfx) <= (1e-12 + 4e-16 * nx) * dfx or nx == 1, 'Interferogram.psd:dx' + tag,
+                        'PSD object reports dx=%r, its x frequency axis is spaced by %r (shape %s)' % (pdx, dfx, shape))
+        return ux, uy, P
+
+    ux, uy, P = once('')
+    if case.get('again', False):
+        # the caller owns what was returned: overwrite it in place, ask again, and the answer must be right again
+        n_over = 0
+        for a in (ux, uy, P):
+            if isinstance(a, np.ndarray) and a.flags.writeable:
+                a[...] = -7.0
+                n_over += 1
+        ctx.label('again:overwrote-%d-arrays' % n_over)
+        once(':aliased-state')
 
 
 # ---- clause 2: a sinusoid is found where the axes say it is -----------------------------------------
@@ -238,7 +398,7 @@ def strat_sinus(tier):
             'shape': st.just(shape), 'dx': dx_strategy,
             'ky': st.integers(-((ny - 1) // 2), (ny - 1) // 2), 'kx': st.integers(-((nx - 1) // 2), (nx - 1) // 2),
             'phase': st.sampled_from([0.0, 0.7, 1.5707963267948966, 2.9]), 'amp': st.sampled_from([1.0, 0.02, 35.0]),
-            'route': st.sampled_from(['function', 'function', 'method'])})
+            'route': st.sampled_from(['function', 'function', 'method']), 'hlayout': U.layouts, 'dxform': st.sampled_from(SCALARS)})
     return shape_strategy(tier).flatmap(build)
 
 
@@ -262,14 +422,16 @@ def check_sinus(case, ctx):
     yy = ((np.arange(ny) - ny // 2) * dx)[:, None]
     xx = ((np.arange(nx) - nx // 2) * dx)[None, :]
     A = case['amp']
-    h = A * np.cos(2 * np.pi * (fx * xx + fy * yy) + case['phase'])
+    h = U.relayout(A * np.cos(2 * np.pi * (fx * xx + fy * yy) + case['phase']), case.get('hlayout', 'C'))
+    dxarg = scalar_form(dx, case.get('dxform', 'float'))
+    ctx.label('hlayout:' + case.get('hlayout', 'C'), 'dx:' + type(dxarg).__name__)
     shape_labels(ctx, shape)
     ctx.nt(ny != nx or ny % 2 == 1 or nx % 2 == 1)
     ctx.label('route:' + route, 'axis-aligned' if (kx == 0 or ky == 0) else 'oblique')
     tolf = 1e-6 * min(1.0 / (nx * dx), 1.0 / (ny * dx))
     bucket = 'psd:peak:' + ('odd-axis' if (ny % 2 or nx % 2) else 'even-axes')
     if route == 'function':
-        ux, uy, P = ctx.call(psd, h, dx, np.ones(shape))
+        ux, uy, P = ctx.call(psd, h, dxarg, np.ones(shape))
         ux, uy, P = np.asarray(ux), np.asarray(uy), np.asarray(P)
         U.check_shape(P, shape, 'psd', 'psd array')
         U.check_shape(ux, shape, 'psd:axes', 'ux')
@@ -287,7 +449,7 @@ def check_sinus(case, ctx):
             rest &= ~at
         ctx.require(float(P[rest].max()) <= 1e-9 * want, bucket + ':leak', 'power %.3g outside the two peaks (peak %.3g)' % (float(P[rest].max()), want))
     else:
-        p = ctx.call(Interferogram(h, dx).psd)
+        p = ctx.call(Interferogram(h, dxarg).psd)
         ux, uy, P = np.asarray(p.x), np.asarray(p.y), np.asarray(p.data)
         U.check_shape(P, shape, 'psd', 'psd array')
         U.check_shape(ux, shape, 'psd:axes', 'p.x')
@@ -299,17 +461,24 @@ def check_sinus(case, ctx):
 
 
 # ---- clause 3: band-limited RMS ----------------------------------------------------------------------
-def strat_brms(tier):
+def brms_fields(tier):
+    """everything of a band-limited-RMS case except the sampling grid (shape, dx)"""
     q = st.integers(0, 10 ** 6)
-    return st.fixed_dictionaries({
-        'shape': shape_strategy(tier), 'dx': dx_strategy, 'seed': U.seeds, 'map': st.sampled_from(MAPS),
+    return {
+        'seed': U.seeds, 'map': st.sampled_from(MAPS),
         'window': st.sampled_from(['user:hann', 'hann', 'auto', 'user:ones', 'user:random', 'welch']),
         'q': st.tuples(q, q, q).map(list),
         'lo': st.sampled_from(['zero', 'edge', 'edge']), 'hi': st.sampled_from(['edge', 'edge', 'none', 'beyond']),
         'form': st.sampled_from(['freq', 'period']),
         'route': st.sampled_from(['function', 'function', 'method', 'function-1d']),
-        'api': st.sampled_from(['native', 'trapz-only', 'trapezoid-only']), 'big': st.sampled_from([False, False, False, True]),
-    })
+        'api': st.sampled_from(['native', 'trapz-only', 'trapezoid-only']),
+        'rlayout': U.layouts, 'playout': U.layouts, 'hdtype': st.sampled_from(['f8', 'f8', 'f4', 'i2']),
+        'edgeform': st.sampled_from(SCALARS),
+    }
+
+
+def strat_brms(tier):
+    return st.fixed_dictionaries(dict(brms_fields(tier), shape=shape_strategy(tier), dx=dx_strategy, big=st.sampled_from([False, False, False, True])))
 
 
 def _mids(radii):
@@ -351,14 +520,22 @@ def check_brms(case, ctx):
     if case['big']:
         shape = big_shape(shape)
     ny, nx = shape
-    h = make_map(case['map'], case['seed'], shape)
+    rlayout, playout = case.get('rlayout', 'C'), case.get('playout', 'C')
+    hdtype = case.get('hdtype', 'f8') if route == 'method' else 'f8'       # the method computes its own PSD from the object's data
+    h = cast_map(make_map(case['map'], case['seed'], shape), hdtype)
+    if route == 'method':
+        h = U.relayout(h, playout)
     warg = window_arg(win, case['seed'], shape)
     shape_labels(ctx, shape)
     if win == 'auto':
         ctx.label('auto:corners-zero' if (case['map'] == 'aperture0' and min(shape) >= 26) else 'auto:corners-nonzero')
-    ctx.label('window:' + win, 'route:' + route, 'api:' + api, 'form:' + case['form'], 'lo:' + case['lo'], 'hi:' + case['hi'])
+    ctx.label('window:' + win, 'route:' + route, 'api:' + api, 'form:' + case['form'], 'lo:' + case['lo'], 'hi:' + case['hi'],
+              'edges-as:' + case.get('edgeform', 'float'),
+              'layouts:r=%s,psd=%s' % (rlayout, playout) if route != 'method' else 'method:data:%s:%s' % (hdtype, playout))
     ctx.nt(ny != nx or ny % 2 == 1 or nx % 2 == 1 or case['form'] == 'period' or api != 'native' or win != 'user:ones')
-    w = window_array(ctx, win, warg, h, dx)
+    w = window_array(ctx, win, warg, h, dx).astype(np.float64)
+    h_in, keep_h = h, h.copy()
+    h = h.astype(np.float64)
     Pref = ref_psd(h, w, dx)
     fx, fy = ref_axes(shape, dx)
     dfx, dfy = 1.0 / (nx * dx), 1.0 / (ny * dx)
@@ -383,7 +560,9 @@ def check_brms(case, ctx):
     hi = {'edge': c, 'none': None, 'beyond': 2.5 * rmax}[case['hi']]
     hi_eff = c if hi is not None and hi < rmax else math.inf
 
-    ifg = Interferogram(h.copy(), dx) if route == 'method' else None
+    ifg = ctx.call(Interferogram, h_in, dx) if route == 'method' else None
+    R_in, P_in = U.relayout(R, rlayout), U.relayout(Pin, playout)
+    keep_R, keep_P = R_in.copy(), P_in.copy()
 
     def brms(flow, fhigh, form):
         """one call into prysm; flow may be 0.0, fhigh may be None (= up to the data's limit)."""
@@ -391,11 +570,17 @@ def check_brms(case, ctx):
             kw = {'wllow': None if fhigh is None else 1.0 / fhigh, 'wlhigh': None if flow == 0 else 1.0 / flow}
         else:
             kw = {'flow': flow, 'fhigh': fhigh}
+        want = dict(kw)
+        kw = {k_: scalar_form(v_, case.get('edgeform', 'float')) for k_, v_ in kw.items()}
         with numpy_generation(api):
             if route == 'method':
                 v = ctx.call(ifg.bandlimited_rms, **kw)
+                args_unchanged(ctx, 'Interferogram.bandlimited_rms', data=(h_in, keep_h))
             else:
-                v = ctx.call(bandlimited_rms, R.copy(), Pin.copy(), **kw)
+                v = ctx.call(bandlimited_rms, R_in, P_in, **kw)
+                args_unchanged(ctx, 'bandlimited_rms', r=(R_in, keep_R), psd=(P_in, keep_P))
+            for k_ in kw:
+                scalar_unchanged(ctx, 'bandlimited_rms', k_, kw[k_], want[k_])
         ctx.require(np.ndim(v) == 0 and bool(np.isfinite(v)) and v >= 0, 'brms:value', 'bandlimited_rms(%r) returned %r' % (kw, v))
         return float(v)
 
@@ -438,11 +623,15 @@ def check_brms(case, ctx):
                     % (val['full'], full_target, hi_b - lo_b, shape, dx, win))
 
 # ---- clause 4: total integrated scatter ----------------------------------------------------------------
+def tis_fields(tier):
+    return {'seed': U.seeds, 'map': st.sampled_from(MAPS),
+            'q': st.integers(0, 10 ** 6), 'limit': st.sampled_from(['edge', 'edge', 'beyond']),
+            'angle': st.sampled_from([0.0, 30.0, 60.0]), 'api': st.sampled_from(['native', 'trapz-only', 'trapezoid-only']),
+            'hlayout': U.layouts, 'wvlform': st.sampled_from(SCALARS), 'angleform': st.sampled_from(['scalar', 'scalar', '0d', 'array', 'int'])}
+
+
 def strat_tis(tier):
-    return st.fixed_dictionaries({
-        'shape': shape_strategy(tier), 'dx': dx_strategy, 'seed': U.seeds, 'map': st.sampled_from(MAPS),
-        'q': st.integers(0, 10 ** 6), 'limit': st.sampled_from(['edge', 'edge', 'beyond']),
-        'angle': st.sampled_from([0.0, 30.0, 60.0]), 'api': st.sampled_from(['native', 'trapz-only', 'trapezoid-only'])})
+    return st.fixed_dictionaries(dict(tis_fields(tier), shape=shape_strategy(tier), dx=dx_strategy))
 
 
 def check_tis(case, ctx):
@@ -465,34 +654,58 @@ def check_tis(case, ctx):
     f_lim = f_edge if case['limit'] == 'edge' else 3.0 * rmax
     wvl = 1000.0 / f_lim          # wavelength in um whose 1/lambda is f_lim cy/mm
     ang = case['angle']
-    ifg = Interferogram(h.copy(), dx)
+    h_in = U.relayout(h, case.get('hlayout', 'C'))
+    ifg = ctx.call(Interferogram, h_in, dx)
+    # "incident_angle : float or ndarray": the drawn angle alone, or as one entry of a vector of angles (the answer is then a vector)
+    aform = case.get('angleform', 'scalar')
+    angles = [15.0, ang, 75.0]
+    angarg = {'scalar': ang, 'int': int(ang), '0d': np.array(ang), 'array': np.array(angles)}[aform]
+    wvlarg = scalar_form(wvl, case.get('wvlform', 'float'))
+    ctx.label('angle-as:' + aform, 'wavelength-as:' + type(wvlarg).__name__)
     with numpy_generation(api):
-        tis = ctx.call(ifg.total_integrated_scatter, wvl, ang)
+        tis = ctx.call(ifg.total_integrated_scatter, wvlarg, angarg)
+    args_unchanged(ctx, 'Interferogram.total_integrated_scatter', data=(h_in, h))
+    scalar_unchanged(ctx, 'Interferogram.total_integrated_scatter', 'wavelength', wvlarg, wvl)
+    scalar_unchanged(ctx, 'Interferogram.total_integrated_scatter', 'incident_angle', angarg, np.array(angles) if aform == 'array' else ang)
+    tis_all = None
+    if aform == 'array':
+        U.check_shape(tis, (3,), 'tis:value', 'TIS for a vector of three angles')
+        ctx.require(bool(np.all(np.isfinite(tis))), 'tis:value', 'total_integrated_scatter returned %r' % (tis,))
+        tis_all = [float(v) for v in np.asarray(tis)]
+        tis = tis[1]
     ctx.require(np.ndim(tis) == 0 and bool(np.isfinite(tis)), 'tis:value', 'total_integrated_scatter returned %r' % (tis,))
     inband = R <= f_lim
     hi_b = float((Pref * inband).sum()) * cell
     lo_b = float((Pref * inband * weights).sum()) * cell
     tol = 1e-9 * float(Pref.sum()) * cell
 
-    def formula(s2):
-        return 1.0 - math.exp(-(4 * math.pi * math.cos(math.radians(ang)) * math.sqrt(max(s2, 0.0)) / wvl) ** 2)
-    t_lo, t_hi = formula(lo_b - tol), formula(hi_b + tol)
-    slack = 1e-9 * max(t_hi, 1e-300) + 1e-15
-    ctx.require(t_lo - slack <= float(tis) <= t_hi + slack, 'tis:band:' + case['limit'],
-                'TIS(lambda=%.6g um -> upper limit %.6g cy/mm of %.6g, angle %g) = %.12g on a %s map dx=%g; the formula with the band-limited RMS over [0, 1/lambda] gives [%.12g, %.12g]'
-                % (wvl, f_lim, rmax, ang, float(tis), shape, dx, t_lo, t_hi))
+    def formula(s2, a=ang):
+        return 1.0 - math.exp(-(4 * math.pi * math.cos(math.radians(a)) * math.sqrt(max(s2, 0.0)) / wvl) ** 2)
+    for a_, v_ in ([(ang, float(tis))] if tis_all is None else list(zip(angles, tis_all))):
+        t_lo, t_hi = formula(lo_b - tol, a_), formula(hi_b + tol, a_)
+        slack = 1e-9 * max(t_hi, 1e-300) + 1e-15
+        ctx.require(t_lo - slack <= v_ <= t_hi + slack, 'tis:band:' + case['limit'],
+                    'TIS(lambda=%.6g um -> upper limit %.6g cy/mm of %.6g, angle %g) = %.12g on a %s map dx=%g; the formula with the band-limited RMS over [0, 1/lambda] gives [%.12g, %.12g]'
+                    % (wvl, f_lim, rmax, a_, v_, shape, dx, t_lo, t_hi))
 
 
 # ---- clause 5: synthesis from a PSD model ------------------------------------------------------------
+def synth_fields(tier):
+    """everything of a synthesis case except the grid (samples, size)"""
+    return {'rms': st.sampled_from([1.0, 5.0, 0.01, 1234.5]),
+            'k': st.integers(0, 2 ** 32 - 1), 'model': st.sampled_from(['abc', 'abc', 'ab']),
+            'a': st.sampled_from([1.0, 1e4, 1e-2]), 'b': st.sampled_from([0.01, 0.1, 1.0, 2.5]), 'c': st.sampled_from([1.0, 2.0, 3.3]),
+            'mask': st.sampled_from(['none', 'circle-bool', 'circle-int', 'random-bool', 'half-float', 'circle-uint8', 'random-f32', 'single-bool', 'row-bool']),
+            'mseed': U.seeds,
+            'mlayout': U.layouts, 'twice': st.sampled_from([False, False, True]),
+            'route': st.sampled_from(['function', 'function', 'render_from_psd'])}
+
+
 def strat_synth(tier):
     N = {'quick': 40, 'thorough': 96}[tier]
-    return st.fixed_dictionaries({
-        'samples': st.one_of(st.integers(4, N), st.sampled_from([4, 5, 8, 9, 16, 31, 32])),
-        'size': st.sampled_from([1.0, 25.4, 100.0, 0.35]), 'rms': st.sampled_from([1.0, 5.0, 0.01, 1234.5]),
-        'k': st.integers(0, 2 ** 32 - 1), 'model': st.sampled_from(['abc', 'abc', 'ab']),
-        'a': st.sampled_from([1.0, 1e4, 1e-2]), 'b': st.sampled_from([0.01, 0.1, 1.0, 2.5]), 'c': st.sampled_from([1.0, 2.0, 3.3]),
-        'mask': st.sampled_from(['none', 'circle-bool', 'circle-int', 'random-bool', 'half-float']), 'mseed': U.seeds,
-        'route': st.sampled_from(['function', 'function', 'render_from_psd'])})
+    awkward = {'quick': [4, 5, 8, 9, 16, 31, 32, 97, 127, 128], 'thorough': [4, 5, 8, 9, 16, 31, 32, 97, 127, 128, 257, 263, 300]}[tier]
+    return st.fixed_dictionaries(dict(synth_fields(tier), samples=st.one_of(st.integers(4, N), st.sampled_from(awkward)),
+                                      size=st.sampled_from([1.0, 25.4, 100.0, 0.35])))
 
 
 def check_synth(case, ctx):
@@ -501,48 +714,188 @@ def check_synth(case, ctx):
     from prysm.interferogram import render_synthetic_surface, abc_psd, ab_psd, Interferogram
     n, size, R = case['samples'], case['size'], case['rms']
     mk = case['mask']
+    mlayout = case.get('mlayout', 'C')
     if mk == 'none':
         mask = None
     else:
         yy, xx = np.mgrid[:n, :n]
         if mk.startswith('circle'):
             m = np.hypot(yy - (n - 1) / 2.0, xx - (n - 1) / 2.0) <= 0.48 * n
-        elif mk == 'random-bool':
+        elif mk.startswith('random'):
             m = U.rng_of(case['mseed'], 5).uniform(size=(n, n)) < 0.7
+        elif mk == 'single-bool':      # degenerate but valid apertures: one valid sample, one valid row
+            m = (yy == case['mseed'] % n) & (xx == (case['mseed'] // n) % n)
+        elif mk == 'row-bool':
+            m = yy == case['mseed'] % n
         else:
             m = xx >= n // 2
         if not m.any():
             m[n // 2, n // 2] = True
-        mask = {'circle-bool': m, 'random-bool': m, 'circle-int': m.astype(int), 'half-float': m.astype(float)}[mk]
+        mask = {'circle-bool': m, 'random-bool': m, 'circle-int': m.astype(int), 'half-float': m.astype(float),
+                'circle-uint8': m.astype(np.uint8), 'random-f32': m.astype(np.float32), 'single-bool': m, 'row-bool': m}[mk]
+        mask = U.relayout(mask, mlayout)
+    keep_mask = None if mask is None else mask.copy()
     if case['model'] == 'abc':
         fcn, kw = abc_psd, {'a': case['a'], 'b': case['b'], 'c': case['c']}
     else:
         fcn, kw = ab_psd, {'a': case['a'], 'b': case['b']}
-    ctx.label('mask:' + mk, 'model:' + case['model'], 'route:' + case['route'], 'odd' if n % 2 else 'even')
+    ctx.label('mask:' + mk, 'model:' + case['model'], 'route:' + case['route'], 'odd' if n % 2 else 'even', 'samples>40' if n > 40 else 'samples<=40')
+    if mask is not None:
+        ctx.label('mlayout:' + mlayout)
     ctx.nt(mask is not None or n % 2 == 1 or case['model'] == 'ab')
-    state = npr.get_state()
-    try:
-        npr.seed(case['k'])     # synthesize_surface_from_psd draws its random phase with np.random.rand
-        if case['route'] == 'function':
-            x, y, z = ctx.call(render_synthetic_surface, size, n, rms=R, mask=None if mask is None else mask.copy(), psd_fcn=fcn, **kw)
-            dx_rep = None
-        else:
-            i = ctx.call(Interferogram.render_from_psd, size, n, rms=R, mask=None if mask is None else mask.copy(), psd_fcn=fcn, **kw)
-            z, dx_rep = i.data, i.dx
-    finally:
-        npr.set_state(state)
-    z = np.asarray(z)
-    U.check_shape(z, (n, n), 'synth', 'surface')
-    fin = np.isfinite(z)
-    want_valid = np.ones((n, n), dtype=bool) if mask is None else (np.asarray(mask) != 0)
-    ctx.require(bool(np.array_equal(fin, want_valid)), 'synth:mask',
-                '%d samples finite where mask == 0, %d non-finite where mask != 0' % (int((fin & ~want_valid).sum()), int((~fin & want_valid).sum())))
-    got = float(np.sqrt(np.mean(z[fin] ** 2)))
-    ctx.require(abs(got - R) <= 1e-9 * R, 'synth:rms', 'requested RMS %.12g, RMS of the %d valid samples %.12g (samples=%d, mask=%s, model=%s)' % (R, int(fin.sum()), got, n, mk, case['model']))
-    ctx.require(float(np.ptp(z[fin])) > 0, 'synth:flat', 'synthesised surface is constant')
+    want_valid = np.ones((n, n), dtype=bool) if mask is None else (np.asarray(keep_mask) != 0)
+
+    def render(k, rms_):
+        state = npr.get_state()
+        try:
+            npr.seed(k)     # synthesize_surface_from_psd draws its random phase with np.random.rand
+            if case['route'] == 'function':
+                x, y, z = ctx.call(render_synthetic_surface, size, n, rms=rms_, mask=mask, psd_fcn=fcn, **kw)
+            else:
+                i = ctx.call(Interferogram.render_from_psd, size, n, rms=rms_, mask=mask, psd_fcn=fcn, **kw)
+                x, y, z = None, None, i.data
+        finally:
+            npr.set_state(state)
+        args_unchanged(ctx, 'render_synthetic_surface', mask=(mask, keep_mask))
+        return x, y, z
+
+    def verify(z, rms_, tag=''):
+        z = np.asarray(z)
+        U.check_shape(z, (n, n), 'synth' + tag, 'surface')
+        fin = np.isfinite(z)
+        ctx.require(bool(np.array_equal(fin, want_valid)), 'synth:mask' + tag,
+                    '%d samples finite where mask == 0, %d non-finite where mask != 0' % (int((fin & ~want_valid).sum()), int((~fin & want_valid).sum())))
+        got = float(np.sqrt(np.mean(z[fin] ** 2)))
+        ctx.require(abs(got - rms_) <= 1e-9 * rms_, 'synth:rms' + tag,
+                    'requested RMS %.12g, RMS of the %d valid samples %.12g (samples=%d, mask=%s, model=%s)' % (rms_, int(fin.sum()), got, n, mk, case['model']))
+        ctx.require(float(np.ptp(z[fin])) > 0 or int(fin.sum()) == 1, 'synth:flat' + tag, 'synthesised surface is constant')
+
+    x, y, z = render(case['k'], R)
+    verify(z, R)
+    if case.get('twice', False):
+        # results must not alias library state or each other: a second synthesis (other random phase, other RMS) on the same grid
+        # leaves the arrays of the first one alone and is right itself
+        kept = [None if a is None else np.array(a, copy=True) for a in (x, y, z)]
+        x2, y2, z2 = render((case['k'] + 1) % 2 ** 32, 2.0 * R)
+        for nm, a, b in zip('xyz', (x, y, z), kept):
+            if a is not None and not np.array_equal(np.asarray(a), b, equal_nan=True):
+                ctx.fail('synth:result-overwritten', 'array %s returned by the first synthesis changed during the second one (samples=%d size=%g)' % (nm, n, size))
+        verify(z2, 2.0 * R, ':second-call')
     # not asserted: the x / y vectors (and render_from_psd's dx) that come with the surface - the statement is about the RMS only;
     # for odd `samples` they are spaced by size/(samples-1) * samples/(samples-1) on the pinned tree (fs is taken from -2*nu[0])
-    del dx_rep
+
+
+# ---- clause 6: different operations, one after the other, on one sampling grid -----------------------
+def strat_grid(tier):
+    N = NMAX[tier]
+    ax = st.one_of(st.integers(4, N), st.sampled_from([4, 5, 8, 9, 16, 31, 32]))
+    return st.fixed_dictionaries({'n': ax, 'm': st.one_of(st.just(0), ax), 'size': st.sampled_from([1.0, 25.4, 100.0, 0.35, 50.0, 7.7])})
+
+
+def strat_grid_op(tier):
+    orient = st.sampled_from(['nn', 'nn', 'nm', 'mn'])
+    table = {
+        'synth': st.fixed_dictionaries({'op': st.just('synth'), 'case': st.fixed_dictionaries(synth_fields(tier))}),
+        'render_psd': st.fixed_dictionaries({'op': st.just('render_psd'), 'rms': st.sampled_from([1.0, 5.0, 0.01]), 'k': st.integers(0, 2 ** 32 - 1),
+                                             'model': st.sampled_from(['abc', 'ab']), 'a': st.sampled_from([1.0, 1e4]), 'b': st.sampled_from([0.1, 1.0, 2.5]),
+                                             'c': st.sampled_from([1.0, 2.0, 3.3])}),
+        'psd': st.fixed_dictionaries({'op': st.just('psd'), 'orient': orient, 'case': st.fixed_dictionaries(psd_fields(tier))}),
+        'brms': st.fixed_dictionaries({'op': st.just('brms'), 'orient': orient, 'case': st.fixed_dictionaries(brms_fields(tier))}),
+        'tis': st.fixed_dictionaries({'op': st.just('tis'), 'orient': orient, 'case': st.fixed_dictionaries(tis_fields(tier))}),
+        'precision32': st.fixed_dictionaries({'op': st.just('precision32'), 'orient': orient, 'seed': U.seeds}),
+    }
+    weighted = ['synth'] * 3 + ['render_psd'] * 2 + ['psd'] * 4 + ['brms'] * 2 + ['tis'] + ['precision32']
+    return st.sampled_from(weighted).flatmap(lambda k: table[k])
+
+
+class GridModel:
+    """different operations, one after the other, on one sampling grid (n, size): each is checked by the oracle of its single-call clause"""
+
+    PSD_SIDE = ('psd', 'brms', 'tis')
+
+    def __init__(self, init, ctx):
+        self.ctx = ctx
+        self.n = int(init['n'])
+        self.m = int(init['m']) or self.n
+        self.size = float(init['size'])
+        self.dx = self.size / (self.n - 1)      # the same floating-point expression render_synthetic_surface uses for its grid
+        self.done = []
+        ctx.label('grid:square' if self.m == self.n else 'grid:nonsquare', 'grid:odd' if self.n % 2 else 'grid:even')
+
+    def _shape(self, orient):
+        n, m = self.n, self.m
+        return {'nn': [n, n], 'nm': [n, m], 'mn': [m, n]}[orient]
+
+    def apply(self, op):
+        ctx = self.ctx
+        k = op['op']
+        ctx.label('seq:' + k)
+        if self.done:
+            ctx.label('seq:%s->%s' % (self.done[-1], k))
+        if k in self.PSD_SIDE + ('render_psd',) and any(d in ('synth', 'render_psd', 'precision32') for d in self.done):
+            ctx.nt(True)
+            ctx.label('seq:psd-side-after-synthesis-or-precision32')
+        getattr(self, 'op_' + k)(op)
+        self.done.append(k)
+
+    def invariant(self):
+        pass
+
+    def op_synth(self, op):
+        check_synth(dict(op['case'], samples=self.n, size=self.size), self.ctx)
+
+    def op_psd(self, op):
+        check_psd(dict(op['case'], shape=self._shape(op['orient']), dx=self.dx, big=False, thin=None), self.ctx)
+
+    def op_brms(self, op):
+        check_brms(dict(op['case'], shape=self._shape(op['orient']), dx=self.dx, big=False), self.ctx)
+
+    def op_tis(self, op):
+        check_tis(dict(op['case'], shape=self._shape(op['orient']), dx=self.dx), self.ctx)
+
+    def op_precision32(self, op):
+        """history only: the same grid is used under config.precision = 32 (nothing is asserted about single-precision results)"""
+        from prysm.interferogram import psd, render_synthetic_surface
+        import numpy.random as npr
+        shape = tuple(self._shape(op['orient']))
+        h = make_map('white', op['seed'], shape).astype(np.float32)
+        state = npr.get_state()
+        try:
+            with U.precision(32):
+                self.ctx.call(psd, h, self.dx, None)
+                npr.seed(op['seed'])
+                self.ctx.call(render_synthetic_surface, self.size, self.n, rms=1.0, a=1.0, b=1.0, c=2.0)
+        finally:
+            npr.set_state(state)
+
+    def op_render_psd(self, op):
+        """Interferogram.render_from_psd(size, n) and then psd() of that very object (its dx is whatever render_from_psd derived)"""
+        import numpy.random as npr
+        from prysm.interferogram import abc_psd, ab_psd, Interferogram
+        ctx = self.ctx
+        n = self.n
+        fcn, kw = (abc_psd, {'a': op['a'], 'b': op['b'], 'c': op['c']}) if op['model'] == 'abc' else (ab_psd, {'a': op['a'], 'b': op['b']})
+        state = npr.get_state()
+        try:
+            npr.seed(op['k'])
+            i = ctx.call(Interferogram.render_from_psd, self.size, n, rms=op['rms'], mask=None, psd_fcn=fcn, **kw)
+        finally:
+            npr.set_state(state)
+        z = np.array(i.data, copy=True)
+        U.check_shape(z, (n, n), 'synth', 'surface')
+        ctx.require(bool(np.all(np.isfinite(z))), 'synth:mask', 'unmasked synthesis has non-finite samples')
+        got = float(np.sqrt(np.mean(z ** 2)))
+        ctx.require(abs(got - op['rms']) <= 1e-9 * op['rms'], 'synth:rms', 'requested RMS %.12g, got %.12g (samples=%d)' % (op['rms'], got, n))
+        dx = i.dx
+        ctx.require(np.ndim(dx) == 0 and np.isfinite(dx) and float(dx) > 0, 'render_from_psd:dx', 'render_from_psd reports dx=%r' % (dx,))
+        dx = float(dx)
+        ctx.label('render_psd:dx-bit-identical-to-size/(n-1)' if dx == self.dx else 'render_psd:dx-differs-in-last-bits')
+        p = ctx.call(i.psd)
+        w = window_array(ctx, 'auto', None, z, dx).astype(np.float64)
+        verify_psd(ctx, (n, n), dx, z, w, ctx.call(getattr, p, 'x'), ctx.call(getattr, p, 'y'), p.data, 1e-10,
+                   'psd() of the object returned by render_from_psd(%g, %d)' % (self.size, n), ':after-render_from_psd')
+        U.check_equal(np.asarray(i.data), z, 'psd:argument-modified', 'Interferogram.psd() changed the data of the object')
+
 
 CLAUSES = [
     HypClause('psd_normalisation', strat_psd, check_psd, examples={'quick': 600, 'thorough': 3000}, shards={'quick': 2, 'thorough': 8}),
@@ -550,4 +903,7 @@ CLAUSES = [
     HypClause('bandlimited_rms', strat_brms, check_brms, examples={'quick': 500, 'thorough': 2500}, shards={'quick': 3, 'thorough': 10}),
     HypClause('total_integrated_scatter', strat_tis, check_tis, examples={'quick': 400, 'thorough': 2000}, shards={'quick': 1, 'thorough': 4}),
     HypClause('synthesis_rms', strat_synth, check_synth, examples={'quick': 400, 'thorough': 2000}, shards={'quick': 1, 'thorough': 4}),
+    HypClause('psd_large', strat_psd_large, check_psd, examples={'quick': 48, 'thorough': 400}, shards={'quick': 2, 'thorough': 8}),
+    MachineClause('grid_history', GridModel, strat_grid, strat_grid_op, steps={'quick': 8, 'thorough': 12},
+                  examples={'quick': 300, 'thorough': 1500}, shards={'quick': 3, 'thorough': 8}),
 ]
